@@ -35,9 +35,9 @@ PARTIAL = "any(0 < s < len(data) for s in script)"
 
 def send_data_contract(data: bytes, script: List[int]) -> bool:
     """
-    pre: 1 <= len(data) <= 6
-    pre: len(script) <= 4
-    pre: all(-2 <= s <= 6 for s in script)
+    pre: 1 <= len(data) <= 8
+    pre: len(script) <= 5
+    pre: all(-2 <= s <= 8 for s in script)
     post: _
     """
     c = _conn(script)
@@ -139,10 +139,14 @@ def stalled_sender(data: bytes, fails_later: bool) -> bool:
 
 
 OBLIGATIONS = [
-    dict(name="send_data_contract", fn="send_data_contract", timeout=300,
+    dict(name="send_data_contract", fn="send_data_contract", timeout=600,
+         parts={"quick": ["len(data) <= 6 and len(script) <= 4 and all(s <= 6 for s in script)"],
+                "thorough": ["len(script) == %d and len(data) <= 4" % k for k in range(6)]
+                + ["len(script) == %d and len(data) == %d" % (k, n) for k in range(6) for n in (5, 6, 7, 8)]},
          functions=["secsgem.common.tcp_connection.TcpConnection.send_data"],
-         bounds="data 1..6 symbolic bytes; every script of <= 4 send() outcomes (accept n bytes / EWOULDBLOCK / EPIPE), then a draining peer",
-         outside="kernel behaviour beyond the documented send()/select() contract; messages longer than 6 bytes (the loop is size-independent)",
+         bounds="quick: data 1..6 symbolic bytes, every script of <= 4 send() outcomes (accept n bytes / EWOULDBLOCK / EPIPE), then a "
+                "draining peer; thorough: data 1..8, scripts <= 5",
+         outside="kernel behaviour beyond the documented send()/select() contract; messages longer than 8 bytes (the loop is size-independent)",
          findings=[dict(id="C10-partial-send", pred=PARTIAL)]),
     dict(name="send_queue_packets", fn="send_queue_packets", timeout=400,
          parts={"quick": ["psize == %d and len(script) <= 2 and len(d1) <= 3" % i for i in (1, 2, 3)],
